@@ -240,3 +240,64 @@ def run(ctx):
     unchecked = [c for c in P.callers_of(NUM + "Decimal::lcm") if "test" not in c]
     ctx.check(not unchecked, "C06-R4", "no-caller-of-panicking-lcm", "the panicking Decimal::lcm has no non-test caller",
               "Decimal::lcm (panics on overflow) is called from %s" % unchecked)
+
+    # ------------------------------------------------------------------ R6 "at least one" helpers need a non-zero budget
+    bounded_sequence_guard(ctx, "C06-R6")
+
+
+def bounded_sequence_guard(ctx, R):
+    """`bounded_sequence(item, min, max)` always emits at least one item (`max.saturating_sub(1)` maps Some(0) and
+    Some(1) to the same repetition), so every call must be dominated by `max != Some(0)` *for the very value it passes
+    as max* — e.g. the budget left after the required properties, not the schema's raw maxProperties."""
+    P = ctx.prog
+    JC_ = "llguidance::json::compiler::Compiler"
+    bs = ctx.body(JC_ + "::bounded_sequence")
+    # the premise: bounded_sequence subtracts one from max without testing it for zero
+    sub1 = [bi for bi, t in bs.calls() if t["f"].get("def", "").endswith("::map") and "Option" in t["f"].get("def", "")]
+    sites = []
+    for b in P.bodies.values():
+        if not P._is_code(b):
+            continue
+        for bi in b.call_blocks(bs.id):
+            sites.append((b, bi))
+    if not ctx.floor(R, "calls of bounded_sequence", len(sites), 1):
+        return
+
+    def var_of(b, o):
+        pl = F.op_place(o)
+        l = pl[0] if pl else None
+        for _ in range(6):
+            ds = b.defs().get(l, []) if l is not None else []
+            if l is None or b.locals[l].get("n") or len(ds) != 1 or ds[0][2] != "assign" or ds[0][3]["rv"] != "use":
+                break
+            nx = F.op_place(ds[0][3]["o"])
+            if not nx or len(nx) != 1:
+                break
+            l = nx[0]
+        return l
+    for b, bi in sites:
+        t = b.blocks[bi]["term"]
+        mx = var_of(b, t["args"][3])
+
+        def zero_some(x):
+            x = L.strip_views(x)
+            v = L.promoted_value(P, b, x) or (L.value_of(b, x) if x[0] in ("ref", "place") else x)
+            v = v if v else x
+            return v[0] == "agg" and isinstance(v[1], dict) and v[1].get("variant") == "Some" and v[2] and v[2][0][0] == "const" and v[2][0][1] == 0
+
+        def same_var(x):
+            x = L.strip_views(x)
+            l = L.root_local(b, x)
+            if l is None and x[0] == "local":
+                l = x[1]
+            return l is not None and l == mx
+        ne = lambda e: e[0] == "call" and e[1].endswith("::ne") and len(e[2]) == 2 and ((same_var(e[2][0]) and zero_some(e[2][1])) or (same_var(e[2][1]) and zero_some(e[2][0])))
+        eq = lambda e: e[0] == "call" and e[1].endswith("::eq") and len(e[2]) == 2 and ((same_var(e[2][0]) and zero_some(e[2][1])) or (same_var(e[2][1]) and zero_some(e[2][0])))
+        g = L.guard_edges_multi(b, [(ne, True), (eq, False)])
+        still = L.dominated_by_cut(b, [bi], g) if g else [bi]
+        ctx.check(mx is not None and bool(g) and not still, R, "bounded_sequence:max-nonzero@" + b.id.rsplit("::", 1)[1],
+                  "the call is dominated by `max != Some(0)` for the value passed as max",
+                  "%s calls bounded_sequence (which always emits one item) without testing the value it passes as `max` against "
+                  "Some(0): when the budget is exhausted (e.g. maxProperties == number of required properties) one extra item is admitted"
+                  % b.id, site=b.where(bi))
+
